@@ -16,6 +16,22 @@ import opalg_gen as G
 from opalg_trees import vals
 
 
+KNOWN_NEG_INDEX = "freeze-slice-negative-index"
+
+
+def neg_index_still_fails(env):
+    """witness of the known finding: Operator.freeze(-1, v) neither rejects nor freezes"""
+    from scico import operator as sop
+
+    jnp = env.jnp
+    Op = sop.Operator(input_shape=((2,), (3,)), output_shape=(2,), eval_fn=lambda x: x[0] + x[1][:2], input_dtype=np.dtype("float64"), output_dtype=np.dtype("float64"))
+    try:
+        F = Op.freeze(-1, jnp.ones((3,), dtype="float64"))
+    except Exception:  # noqa: BLE001
+        return False
+    return G.lst(F.input_shape) != [2]
+
+
 def _flat(env, y):
     return env.flat(y)
 
@@ -220,6 +236,29 @@ def cases(env, rng, thorough=False, parts=("stacks", "freeze", "circ", "conv")):
         except Exception as ex:  # noqa: BLE001
             yield (f"freeze c={cplx}", ("freeze", cplx), {"raised": repr(ex)[:200]})
         Fn = Function(((n1,), (n2,)), output_shape=(m,), eval_fn=lambda x, y: J1 @ x + J2 @ y, input_dtypes=np.dtype(dt), output_dtype=np.dtype(dt))
+        # negative indices count from the end (freeze(-1, v) = freeze(N-1, v), slice(-1, ...) = slice(N-1, ...)); an index
+        # below -N is rejected.  Known finding freeze-slice-negative-index while fixes/opalg-14 is not applied.
+        a1, a2 = jnp.asarray(v1 if cplx else v1.real, dtype=dt), jnp.asarray(v2 if cplx else v2.real, dtype=dt)
+        for nm, key, thunk, want in (
+            ("freeze(-1)", ("freeze", -1, cplx), lambda: Op.freeze(-1, a2), lambda x: G1 @ x + G2 @ v2),
+            ("freeze(-2)", ("freeze", -2, cplx), lambda: Op.freeze(-2, a1), lambda x: G1 @ v1 + G2 @ x),
+            ("Function.slice(-1)", ("fslice", -1, cplx), lambda: Fn.slice(-1, a1), lambda x: G1 @ v1 + G2 @ x),
+            ("Function.slice(-2)", ("fslice", -2, cplx), lambda: Fn.slice(-2, a2), lambda x: G1 @ x + G2 @ v2),
+        ):
+            f = check_op(env, thunk, want, nm.split("(")[0], linear=False)
+            if f:
+                f["known_id"] = KNOWN_NEG_INDEX
+                f["call"] = nm
+            yield (f"{nm} c={cplx}", key, f)
+        for nm, key, thunk in (("freeze(-3)", ("freeze", -3, cplx), lambda: Op.freeze(-3, a1)), ("Function.slice(-3)", ("fslice", -3, cplx), lambda: Fn.slice(-3, a1))):
+            try:
+                thunk()
+                f = {"accepted_out_of_range_index": nm, "known_id": KNOWN_NEG_INDEX, "what": nm.split("(")[0]}
+            except (ValueError, IndexError):
+                f = None
+            except Exception as ex:  # noqa: BLE001
+                f = {"raised": repr(ex)[:200], "expected": "ValueError/IndexError", "what": nm.split("(")[0]}
+            yield (f"{nm} c={cplx}", key, f)
         yield (f"Function.slice(0) c={cplx}", ("fslice", 0, cplx), check_op(env, lambda: Fn.slice(0, jnp.asarray(v2 if cplx else v2.real, dtype=dt)), lambda x: G1 @ x + G2 @ v2, "Function.slice", linear=False))
         yield (f"Function.slice(1) c={cplx}", ("fslice", 1, cplx), check_op(env, lambda: Fn.slice(1, jnp.asarray(v1 if cplx else v1.real, dtype=dt)), lambda x: G1 @ v1 + G2 @ x, "Function.slice", linear=False))
         yield (f"Function.join c={cplx}", ("fjoin", cplx), check_op(env, lambda: Fn.join(), lambda x: G1 @ x[:n1] + G2 @ x[n1:], "Function.join", linear=False))
@@ -397,7 +436,10 @@ def stack_oracle(env):
                 try:
                     z = o.adj(env.to_array(yv, G.lst(o.output_shape), np.dtype(o.output_dtype).name))
                 except Exception as ex:  # noqa: BLE001
-                    fails["adjoint_raised"] = repr(ex)[:200]
+                    # operands of different dtypes below a generic sum: the recorded finding adj-dtype-check-mixed
+                    # (LinearOperator.adj compares dtypes exactly) - not a property of the stack
+                    if not (not dt_uni and "Dtype error" in str(ex)):
+                        fails["adjoint_raised"] = repr(ex)[:200]
                     break
                 if G.lst(z.shape) != G.lst(o.input_shape) or (dt_uni and np.dtype(z.dtype) != np.dtype(o.input_dtype)):
                     fails["adjoint_meta"] = {"declared": [G.lst(o.input_shape), indt], "returned": [G.lst(z.shape), np.dtype(z.dtype).name]}
